@@ -95,6 +95,7 @@ def _gen_keyed(rng, tier, g):
                                       'PRIMARY KEY']),
             'prior': [[k, 'p%d' % k] for k in range(1, nprior + 1)],
             'loads': loads, 'keep_exc': rng.random() < 0.3,
+            'tname': rng.choice(['t', 't', '"t"']),
             'order': rng.choice(['kv', 'vk'])}
 
 
@@ -613,9 +614,16 @@ def _run_keyed(e, case, log):
     nloads = 0
     with devices.TempSandbox() as sb:
         path = os.path.join(sb.path, 'keyed.db')
+        tname = case.get('tname', 't')
+        qt = '"' + tname.replace('"', '""') + '"'
         c0 = sqlite3.connect(path)
-        c0.execute('create table t ("k" %s, "v")' % case['constraint'])
-        c0.executemany('insert into t values (?, ?)', case['prior'])
+        c0.execute('create table %s ("k" %s, "v")' % (qt, case['constraint']))
+        c0.executemany('insert into %s values (?, ?)' % qt, case['prior'])
+        if tname != 't':
+            # the name begins and ends with a double quote character; a
+            # table with the bare name sits next to it and stays as it is
+            c0.execute('create table t ("k", "v")')
+            c0.execute("insert into t values (99, 'sibling')")
         c0.commit()
         c0.close()
         model = [tuple(r) for r in case['prior']]
@@ -640,7 +648,7 @@ def _run_keyed(e, case, log):
             raised, kept = None, []
             try:
                 (e.todb if op == 'todb' else e.appenddb)(
-                    table, dbo, 't', commit=True)
+                    table, dbo, tname, commit=True)
             except Exception as ex:
                 raised = type(ex)
                 msg = str(ex)
@@ -671,7 +679,13 @@ def _run_keyed(e, case, log):
                     [tuple(r) for r in rows]
             rd = sqlite3.connect(path, timeout=0.2)
             try:
-                got = rd.execute('select k, v from t').fetchall()
+                got = rd.execute('select k, v from %s' % qt).fetchall()
+                if tname != 't':
+                    sib = rd.execute('select k, v from t').fetchall()
+                    if sib != [(99, 'sibling')]:
+                        raise _Bad('other-table-changed', '%s (the table is '
+                                   'called %s): the table called t next to '
+                                   'it now holds %r' % (what, tname, sib))
             except sqlite3.OperationalError as ex:
                 raise _Bad('fresh-connection-blocked', '%s: a fresh '
                            'connection cannot read the table afterwards: %s'
